@@ -319,24 +319,33 @@ class NestedTransition(Transition):
             # if and only if all other children are also in a final state and a child has recently reached a final
             # state OR the scoped state has just been entered, trigger callbacks
             if all_children_final:
-                if on_final_cbs or any(event_data.machine.scoped.scoped_enter == part.func for part in enter_partials):
+                if on_final_cbs or self._just_entered(event_data, enter_partials):
                     on_final_cbs.append(
                         partial(event_data.machine.callbacks, event_data.machine.scoped.on_final, event_data))
                 is_final = True
             # a state which is tagged final and has just been entered triggers its own callbacks even though
             # (some of) its children are not final; it is not considered final by its parents
             elif getattr(event_data.machine.scoped, 'final', False) and \
-                    any(event_data.machine.scoped.scoped_enter == part.func for part in enter_partials):
+                    self._just_entered(event_data, enter_partials):
                 on_final_cbs.append(
                     partial(event_data.machine.callbacks, event_data.machine.scoped.on_final, event_data))
         # if a state is a leaf state OR has children not in a final state
         elif getattr(event_data.machine.scoped, 'final', False):
             # if the state itself is considered final and has recently been entered trigger callbacks
             # thus, a state with non-final children may still trigger callbacks if itself is considered final
-            if any(event_data.machine.scoped.scoped_enter == part.func for part in enter_partials):
+            if self._just_entered(event_data, enter_partials):
                 on_final_cbs.append(partial(event_data.machine.callbacks, event_data.machine.scoped.on_final, event_data))
             is_final = True
         return on_final_cbs, is_final
+
+    @staticmethod
+    def _just_entered(event_data, enter_partials):
+        # a state object may be part of the state tree more than once (reused machines); the scoped state has only
+        # been entered if one of the enter partials targets this very object AT the currently scoped path
+        machine = event_data.machine
+        parents = machine.prefix_path[:-1]
+        return any(machine.scoped.scoped_enter == part.func and list(part.args[1]) == parents
+                   for part in enter_partials)
 
     def _final_check_nested(self, state, event_data, state_tree, enter_partials):
         with event_data.machine(state):
